@@ -96,6 +96,40 @@ def typed_cases(assignments):
     return out
 
 
+def shape_cases(assignments):
+    """the fragment `typedshape` instantiated for every keyed entry of every typed model: the entry's value is the shape the
+    model's assignment selects (one deviating slot = that shape; both = the first)"""
+    import re
+    from lib import models
+    ms = models.extract()
+    by = {m["name"]: m for m in ms}
+    shapes = sorted({S.SHAPES[k][a[k]] for a in assignments for k in ("SH1", "SH2") if a.get(k, "sane") != "sane"})
+    out = []
+
+    def add(model, label, body10):
+        objs = {1: b"<< /Type /Catalog /Pages 2 0 R >>", 2: b"<< /Type /Pages /Kids [3 0 R] /Count 1 >>",
+                3: b"<< /Type /Page /Parent 2 0 R /MediaBox [0 0 10 10] /Contents 4 0 R /Resources << >> >>", 4: S._stream_body("<< >>", S.CONTENT),
+                10: body10.encode("latin-1")}
+        for k, t in models.AUX.items():
+            objs[k] = t.encode()
+        out.append({"id": len(out), "cls": "typedshape:%s[%s]" % (model, label), "hex": S._write_table(objs, "").hex(), "frag": "typedshape", "typed": [[model, 10]]})
+
+    for m in ms:
+        base = models.minimal(m, by)
+        if base is False:
+            continue
+        for f in m["fields"]:
+            if f["other"] or f["skip"] or f["key"] is None:
+                continue
+            body = re.sub(r"/%s (\[[^\]]*\]|<<.*?>>|\([^)]*\)|\S+( 0 R)?)" % re.escape(f["key"]), "", base[2:-2], count=1).strip()
+            for sh in shapes:
+                add(m["name"], "%s=%s" % (f["key"], sh), "<< %s /%s %s >>" % (body, f["key"], sh))
+    for model, good, variants in HAND_SELF:
+        for sh in shapes:
+            add(model, "whole=%s" % sh, sh)
+    return out
+
+
 def judge(v, concrete, results, deaths, expect):
     """expect: sig -> set of model results for tree-walk fragments"""
     n_nontrivial = 0
@@ -160,10 +194,11 @@ def run(tier, seed):
     if frs != sorted(S.ORDER):
         raise vlib.ToolError("fragment table of the model and of the replay differ")
     typed = typed_cases([c["refs"] for c in model_cases if c["frag"] == "typedfield"])
-    concrete = concretise([c for c in model_cases if c["frag"] != "typedfield"])
-    for c in typed:
-        c["id"] += len(concrete)
-    concrete += typed
+    shaped = shape_cases([c["nums"] for c in model_cases if c["frag"] == "typedshape"])
+    concrete = concretise([c for c in model_cases if c["frag"] not in ("typedfield", "typedshape")])
+    for c in typed + shaped:
+        c["id"] = len(concrete)
+        concrete.append(c)
     results, deaths = walk.run(PID, "walk", concrete, shards=14, secs=10, extra=("--detail",))
     if len(results) + len(deaths) != len(concrete):
         raise vlib.ToolError("replay lost cases: %d results + %d deaths != %d" % (len(results), len(deaths), len(concrete)))
